@@ -404,6 +404,9 @@ example : isAncestorPos sample 1 5 = true := by decide
 example : isAncestorPos sample 4 3 = false := by decide
 example : Reach sample 1 5 := (is_ancestor_iff_reachable (build_wf _ (by simp [ParentsBefore])) 1 5).mp (by decide)
 example : heads sample [1, 3, 3, 2, 4] = [4, 3] := by decide
+example : [4, 3, 2, 1].Pairwise (· > ·) ∧ ∀ c ∈ [4, 3, 2, 1], c < sample.length := by decide
+example := heads_pos_eq_maximal (idx := sample) (build_wf _ (by simp [ParentsBefore])) [4, 3, 2, 1] (by decide) (by decide) 3
+example := common_ancestors_eq_gca (idx := sample) (build_wf _ (by simp [ParentsBefore])) [3] [4, 2] (by decide) (by decide) 2
 example : commonAncestorsPos sample [3] [4] = [1] := by decide
 example : commonAncestorsPos sample [3] [4, 2] = [2, 1] := by decide
 example : allHeadsPos sample = [5] := by decide
@@ -415,6 +418,30 @@ example : IdWF [⟨0, [], 0⟩, ⟨1, [0], 1⟩, ⟨2, [1], 2⟩] := ⟨by decid
   rw [this]; exact build_wf _ (by simp [ParentsBefore])⟩
 example : (mergeIn [⟨0, [], 0⟩, ⟨1, [0], 1⟩, ⟨2, [1], 2⟩] [(3, 2), (2, 1)] [⟨0, [], 0⟩, ⟨1, [0], 1⟩, ⟨3, [1], 2⟩, ⟨4, [0, 2], 3⟩]
     [(4, 3), (2, 1)]).map (·.id) = [0, 1, 2, 3, 4] := by decide
+/-- a concrete instance of every hypothesis of `merge_in_union`: two indexes sharing the file with 2 commits -/
+def selfS : IdIndex := [⟨0, [], 0⟩, ⟨1, [0], 1⟩, ⟨2, [1], 2⟩]
+def otherS : IdIndex := [⟨0, [], 0⟩, ⟨1, [0], 1⟩, ⟨3, [1], 2⟩, ⟨4, [0, 2], 3⟩]
+theorem idwf_of_build (l : IdIndex) (pss : List (List Nat)) (h1 : (ids l).Nodup) (h2 : toIndex l = build pss) (h3 : ParentsBefore pss 0) : IdWF l :=
+  ⟨h1, h2 ▸ build_wf _ h3⟩
+example : commonBase 5 [(3, 2), (2, 1)] [(4, 3), (2, 1)] = 2 := by decide
+theorem sample_merge_base : ∀ q, q < commonBase ([(3, 2), (2, 1)].length + [(4, 3), (2, 1)].length + 1) [(3, 2), (2, 1)] [(4, 3), (2, 1)] →
+      ∀ i, idAt otherS q = some i → i ∈ ids selfS := by
+  intro q hq i h
+  have hcb : commonBase ([(3, 2), (2, 1)].length + [(4, 3), (2, 1)].length + 1) [(3, 2), (2, 1)] [(4, 3), (2, 1)] = 2 := by decide
+  have hq2 : q < 2 := by rw [hcb] at hq; exact hq
+  match q, hq2 with
+  | 0, _ => simp [idAt, otherS] at h; subst h; decide
+  | 1, _ => simp [idAt, otherS] at h; subst h; decide
+theorem sample_merge_consistent : ∀ c p, c ∈ ids selfS → c ∈ ids otherS → (IdEdge selfS c p ↔ IdEdge otherS c p) := by
+  intro c p h1 h2
+  simp [ids, selfS, otherS] at h1 h2
+  rcases h1 with rfl | rfl | rfl
+  · simp [IdEdge, selfS, otherS, parentIdsAt, idAt]
+  · simp [IdEdge, selfS, otherS, parentIdsAt, idAt]
+  · simp at h2
+example := merge_in_union (self := selfS) (other := otherS) (idwf_of_build _ [[], [0], [1]] (by decide) (by decide) (by simp [ParentsBefore]))
+  (idwf_of_build _ [[], [0], [1], [0, 2]] (by decide) (by decide) (by simp [ParentsBefore])) [(3, 2), (2, 1)] [(4, 3), (2, 1)] sample_merge_base sample_merge_consistent
+
 example : entryByPos (segmentsOf sample [3, 2, 1] 0 []) 4 = some { parents := [1], gen := 2 } := by decide
 
 end JjModel.C18
